@@ -178,6 +178,20 @@ def impl_asarray(case):
 
 _ORIG = {}
 
+# the samplers handed to data_rvs (source text, so that the replay line is exact).  Apart from `arange` they
+# return the array's fill value with positive probability: the property demands exactly nnz STORED elements
+# carrying the sampler's values whatever those values are (no pruning).
+RVS_SRC = {
+    "arange": "lambda n: np.arange(1, n + 1)",
+    "mod3": "lambda n: np.arange(n) % 3",                              # integers incl. 0
+    "bool": "lambda n: np.arange(n) % 2 == 0",                         # booleans incl. False
+    "constfill": "lambda n: np.full(n, fv)",                           # every value equals the fill value
+    "mixfill": "lambda n: np.where(np.arange(n) % 2 == 0, fv, fv + 7)",
+    "nanfill": "lambda n: np.full(n, np.nan)",                         # used with fill_value = NaN
+    "zerosf": "lambda n: np.zeros(n)",                                 # floats equal to the default fill
+}
+NAN_TOKEN = 10**9 + 7
+
 
 def impl_random(case):
     """one (shape, density|nnz, seed, format, fill, idx_dtype, sampler) request: run once with the module
@@ -226,15 +240,21 @@ def impl_random(case):
         kw["density"] = dens
     if nnz is not None:
         kw["nnz"] = nnz
+    fillv = float("nan") if fill == "nan" else fill
     if fill is not None:
-        kw["fill_value"] = fill
+        kw["fill_value"] = fillv
     if idx is not None:
         kw["idx_dtype"] = np.dtype(idx)
     given = []
-    if sampler == "arange":
+    rec = []
+    if sampler != "default":
+        f = eval(RVS_SRC[sampler], {"np": np, "fv": 0 if fillv is None else fillv})
+
         def rvs(n):
             given.append(int(n))
-            return np.arange(1, n + 1)
+            o = f(int(n))
+            rec.append([_ival(v) for v in o])      # what the sampler handed out (NaN -> token)
+            return o
         kw["data_rvs"] = rvs
 
     def run(rs):
@@ -249,9 +269,10 @@ def impl_random(case):
     finally:
         U.algA, U.algD, U.reverse = _ORIG["algA"], _ORIG["algD"], _ORIG["reverse"]
     n_given = list(given)
+    rec1 = rec[0] if rec else None
     x2, e2 = run(seed)
     x3, e3 = run(np.random.default_rng(seed))
-    out = {"exc": e1, "calls": calls, "given": n_given, "sampled": sampled,
+    out = {"exc": e1, "calls": calls, "given": n_given, "sampled": sampled, "rec": rec1,
            "el": int(np.prod(shape, dtype=np.intp)),
            "py_prod": int(np.prod(shape, dtype=np.intp) * dens) if dens is not None and 0 <= dens <= 1 else None}
     if x1 is None:
@@ -266,10 +287,10 @@ def impl_random(case):
     def key(x):
         r, hx = _raw_any(x)
         return (type(x).__name__, str(x.dtype), json.dumps(r, sort_keys=True), tuple(hx),
-                float(np.asarray(x.fill_value)).hex())
+                float(np.asarray(x.fill_value).real).hex())
     out["same"] = key(x1) == key(x2) == key(x3)
     raw = _raw_any(x1)[0]
-    if sampler != "arange":
+    if sampler == "default":
         raw["data"] = [1] * len(raw["data"])          # float samples: only their number is compared
     out["raw"] = raw
     out["nnz_attr"] = int(x1.nnz)
@@ -515,7 +536,11 @@ def random_cases(tier, rng):
     fmt_cycle = itertools.cycle(["coo", "coo", "gcxs", "coo", "dok"])
     fill_cycle = itertools.cycle([None, None, 3, 0, None, -2])
     idx_cycle = itertools.cycle([None, None, None, "int8", "uint8", "int32", None, "int64", "uint16"])
-    samp_cycle = itertools.cycle(["arange", "arange", "default"])
+    samp_cycle = itertools.cycle(["arange", "mod3", "default", "constfill", "bool", "arange", "mixfill", "nanfill",
+                                  "zerosf", "mod3", "constfill"])
+
+    def fills(sampler, fill):
+        return "nan" if sampler == "nanfill" else None if sampler == "bool" else fill
     for sh in shapes:
         size = 1
         for s in sh:
@@ -524,16 +549,18 @@ def random_cases(tier, rng):
             ss = seeds if (size <= 12 or sh == (40,) or (tier != "quick" and sh == (5, 8))) else \
                 seeds[: (12 if tier == "quick" else 60)]
             for sd in ss:
-                cases.append((list(sh), None, nnz, sd, next(fmt_cycle), next(fill_cycle), next(idx_cycle),
-                              next(samp_cycle)))
+                smp = next(samp_cycle)
+                cases.append((list(sh), None, nnz, sd, next(fmt_cycle), fills(smp, next(fill_cycle)), next(idx_cycle),
+                              smp))
     grid = [0.0, 0.01, 0.05, 0.1, 0.25, 0.29, 0.3, 0.5, 0.51, 0.7, 0.9, 0.95, 0.99, 1.0, 1e-300, 0.999999999999]
     grid += [rng.random() for _ in range(8 if tier == "quick" else 40)]
     for sh in shapes + [(30, 40), (7, 11, 13)]:
         for d in grid:
             big = sh in [(30, 40), (7, 11, 13)]
             for sd in seeds[: ((1 if big else 4) if tier == "quick" else (4 if big else 10))]:
-                cases.append((list(sh), d, None, sd, next(fmt_cycle), next(fill_cycle), next(idx_cycle),
-                              next(samp_cycle)))
+                smp = next(samp_cycle)
+                cases.append((list(sh), d, None, sd, next(fmt_cycle), fills(smp, next(fill_cycle)), next(idx_cycle),
+                              smp))
     # larger arrays: every branch with large arguments
     for sh in [(30, 40), (1000,), (7, 11, 13)]:
         size = 1
@@ -543,7 +570,8 @@ def random_cases(tier, rng):
                            size - size // 3, size - size // 10 - 1, size - size // 10, size - size // 11,
                            size - 3, size - 2, size - 1, size}):
             for sd in seeds[: (2 if tier == "quick" else 12)]:
-                cases.append((list(sh), None, nnz, sd, next(fmt_cycle), next(fill_cycle), None, next(samp_cycle)))
+                smp = next(samp_cycle)
+                cases.append((list(sh), None, nnz, sd, next(fmt_cycle), fills(smp, next(fill_cycle)), None, smp))
     # default density (0.01), no nnz
     for sh in [(5, 8), (30, 40), (1000,), ()]:
         for sd in seeds[:3]:
@@ -815,6 +843,7 @@ def campaign(build, tier, seed, report, budget=1):
     # ---------------------------------------------------------------- random (API)
     cases, res = G["random"], R["random"]
     lits, idx = [], []
+    rps = {}
     TAG = {(): 0, ("choice",): 1, ("choice", "reverse"): 21, ("algD",): 3, ("algA",): 4,
            ("algD", "reverse"): 23, ("algA", "reverse"): 24}
     n_idx_checked = 0
@@ -823,9 +852,11 @@ def campaign(build, tier, seed, report, budget=1):
         args = ", ".join(x for x in [f"density={dens!r}" if dens is not None else "",
                                      f"nnz={nnz}" if nnz is not None else "", f"random_state={sd}",
                                      f"format='{fmt}'", f"fill_value={fill}" if fill is not None else "",
-                                     f"idx_dtype='{idxdt}'" if idxdt else ""] if x)
-        rp = (f"import sparse, numpy as np; nan=float('nan'); inf=float('inf'); "
-              f"x=sparse.random({tuple(sh)}, {args}); print(x, x.nnz)")
+                                     f"idx_dtype='{idxdt}'" if idxdt else "",
+                                     f"data_rvs={RVS_SRC[sampler]}" if sampler != "default" else ""] if x)
+        rp = (f"import sparse, numpy as np; nan=float('nan'); inf=float('inf'); fv={0 if fill is None else fill}; "
+              f"x=sparse.random({tuple(sh)}, {args}); print(x, 'stored:', x.nnz, getattr(x, 'data', None))")
+        rps[i] = rp
         if bad_result(r) or "calls" not in r:
             V.append(viol("random", "value", "raises_other_than_ValueError_or_hangs", c, r, rp))
             continue
@@ -866,19 +897,28 @@ def campaign(build, tier, seed, report, budget=1):
                 continue
             otag = TAG[calls]
             on, oN = (el, el) if not r["calls"] else (r["calls"][0][1], r["calls"][0][2])
-            n_samp = r["given"] if sampler == "arange" else r["sampled"]
+            n_samp = r["given"] if sampler != "default" else r["sampled"]
             if len(n_samp) != 1:
                 V.append(viol("random", "value", "sampler_not_called_exactly_once", c, r, rp))
                 continue
-            outl = "(Some " + vpair(lit_raw(r["raw"]), vpair(vZ(n_samp[0]), vbool(sampler == "arange")),
+            skind = {"default": 0, "arange": 1}.get(sampler, 2)
+            outl = "(Some " + vpair(lit_raw(r["raw"]),
+                                    vpair(vZ(n_samp[0]), vZ(skind), vlist(r["rec"] if skind == 2 else [])),
                                     vpair(vZ(otag), vZ(on), vZ(oN)),
                                     vbool(r["same"])) + ")"
             if r.get("nnz_attr") != len(r["raw"]["coords"]):
                 V.append(viol("random", "value", "nnz_attribute_differs_from_stored_count", c, r, rp))
         lits.append(vpair(vlist(sh), "None" if dm is None else f"(Some {vpair(vZ(dm[0]), vZ(dm[1]))})", vopt(nnz),
-                          vZ(0 if fill is None else fill), outl))
+                          vZ(0 if fill is None else NAN_TOKEN if fill == "nan" else fill), outl))
         idx.append(i)
         distinct.add(("random", tuple(sh), dens, nnz))
+        tags.setdefault("random_sampler", {})
+        tags["random_sampler"][sampler] = tags["random_sampler"].get(sampler, 0) + 1
+        if r["exc"] is None and r.get("rec") is not None:
+            fvi = 0 if fill is None else NAN_TOKEN if fill == "nan" else fill
+            if any(v == fvi for v in r["rec"]):
+                tags["random_sampler"]["(sampler returned the fill value)"] = \
+                    tags["random_sampler"].get("(sampler returned the fill value)", 0) + 1
     out, tg = judge_tags(build, "c19_random", "random_case", "judge_random", "tag_random", lits)
     CL = {1: "rejects_admissible_or_accepts_inadmissible_request", 2: "stored_count_differs_from_request",
           3: "positions_not_canonical", 4: "shape_fill_or_data_differs", 5: None, 6: None,
@@ -888,9 +928,8 @@ def campaign(build, tier, seed, report, budget=1):
         sh, dens, nnz, sd, fmt, fill, idxdt, sampler = c
         if code == 1 and idxdt is not None and r["exc"] is not None:
             continue          # already classified above (index type)
-        V.append(viol("random", "representation" if code in (5, 6) else "value", CL[code], c, r,
-                      f"import sparse; nan=float('nan'); inf=float('inf'); x=sparse.random({tuple(sh)}, density={dens!r}, "
-                      f"nnz={nnz}, random_state={sd}, format='{fmt}'); print(x, x.coords)", detail=f"judge code {code}"))
+        V.append(viol("random", "representation" if code in (5, 6) else "value", CL[code], c, r, rps[idx[j]],
+                      detail=f"judge code {code}; sampler handed out {str(r.get('rec'))[:200]}"))
     BR = {0: "all(arange)", 1: "choice", 3: "algD", 4: "algA", 21: "reverse(choice)", 23: "reverse(algD)",
           24: "reverse(algA)", 99: "rejected"}
     tags["random_branch"] = hist(BR.get(t, t) for t in tg)
@@ -992,7 +1031,7 @@ def campaign(build, tier, seed, report, budget=1):
     cov["samples"] = [sample_eye, sample_full, sample_random]
     cov["branch_tags"] = tags
     cov["differential_only"] = dict(diff_only, note="result dtype and class compared with NumPy's in Python")
-    cov["unproved_statements"] = ["asarray_den (COO.from_numpy of a dense array denotes it): correspondence only"]
+    cov["unproved_statements"] = []
     return V
 
 
